@@ -169,6 +169,22 @@ def run(ctx):
                 ctx.violation("impl_violates_predicate", "C09_sound/C09_complete/C09_failure_names_violated_rule",
                               {"case": c, "fails": f, "clauses": clauses(c)},
                               signature="policy %s %s: %s" % (c["kind"], c["name"], f[0]))
+    # ---- the Coq witnesses (theorems *_refuted_outside) replayed on the real code
+    expect = {"witness:accept-expired": (0, 0), "witness:reject-valid": (5, 0),
+              "witness:fee-overflow": (0, 0), "example:boundary": None}
+    wit = {}
+    for c in rows:
+        if c["cls"] in expect:
+            wit.setdefault(c["cls"], []).append(c["name"])
+            exp = expect[c["cls"]]
+            if exp is not None and (c["code"], c["detail"]) != exp:
+                ctx.violation("correspondence_mismatch", "C09 witness " + c["cls"],
+                              {"case": c, "expected": exp}, signature="policy witness " + c["cls"],
+                              failing_input=False)
+    if wit.get("example:boundary") != ["nil", "*lnwire.FailFeeInsufficient"]:
+        ctx.violation("impl_violates_predicate", "C09 Examples.v boundary pair",
+                      {"observed": wit.get("example:boundary")},
+                      signature="policy example boundary")
     # ---- correspondence (kernel path, vm_compute)
     terms = [case_term(c) for c in rows]
     shard = max(200, len(terms) // NCPU + 1)
@@ -218,6 +234,7 @@ def run(ctx):
         "aux_modes": hist(lambda c: c["aux"]),
         "samples": [inputs_of(rows[0]), inputs_of(rows[len(rows) // 2])],
         "correspondence_mismatches": len(bad),
+        "witness_replays_on_real_code": wit,
     })
     ctx.assumptions += [
         "D (domain of C09_machine_eq_spec): in < 2^63, out <= 2^42 msat (43.98 BTC), base fee < 2^32, "
